@@ -94,7 +94,7 @@ def parse_template(text):
                     # //@@ letexpr <file> <fn> <var> params=a:&T;b:U ret=r:TYPE [tags=..]
                     cur = Directive('letexpr', words[1], words[2] + ' ' + words[3], parse_opts([w for w in words[4:] if '=' in w]), i + 1)
                 elif head == 'fn':
-                    cur = Directive('fn', words[1], ' '.join(w for w in words[2:] if '=' not in w and w not in ('trusted', 'n5', 'n6', 'n7')), parse_opts([w for w in words[2:] if '=' in w or w in ('trusted', 'n5', 'n6', 'n7')]), i + 1)
+                    cur = Directive('fn', words[1], ' '.join(w for w in words[2:] if '=' not in w and w not in ('trusted', 'n5', 'n6', 'n7', 'n8')), parse_opts([w for w in words[2:] if '=' in w or w in ('trusted', 'n5', 'n6', 'n7', 'n8')]), i + 1)
                 elif head in ('type', 'const', 'alias', 'static', 'trait'):
                     d = Directive(head, words[1], words[2], parse_opts(words[3:]), i + 1)
                     out.append(('dir', d))
@@ -427,6 +427,27 @@ def split_let_chains(body, gen, fname):
             return body
 
 
+def split_enumerate(body, gen, fname):
+    """N8: `for (i, x) in E.iter().enumerate() { B }`  ->  `let mut i: usize = 0; for x in E.iter() { B i += 1; }`
+    (only when B contains no `continue`, which would skip the increment).  Verus has no model of Enumerate."""
+    while True:
+        m = mask(body)
+        mm = re.search(r'\bfor\s*\(\s*(\w+)\s*,\s*(\w+)\s*\)\s+in\s+([^{;]+?)\.iter\(\)\.enumerate\(\)\s*\{', m)
+        if not mm:
+            return body
+        o = mm.end() - 1
+        c = match_close(m, o)
+        if re.search(r'\bcontinue\b', m[o:c]):
+            raise Unsupported('%s: enumerate loop with continue (N8 does not apply)' % fname)
+        i, x = mm.group(1), mm.group(2)
+        expr = body[mm.start(3):mm.end(3)]
+        before = ' '.join(body[mm.start():o + 1].split())
+        head = 'let mut %s: usize = 0; for %s in %s.iter() {' % (i, x, expr)
+        body = body[:mm.start()] + head + body[o + 1:c] + '    %s += 1; /* N8 */\n' % i + body[c:]
+        gen.n1_log.append({'function': fname, 'rule': 'N8', 'before': before, 'after': head + ' .. %s += 1; }' % i})
+        gen.drops['N8_enumerate_desugared'] = gen.drops.get('N8_enumerate_desugared', 0) + 1
+
+
 def build_fn(gen, d):
     src, masked, it, impl_header = locate_fn(d)
     opts = d.opts
@@ -459,6 +480,9 @@ def build_fn(gen, d):
         name = opts['tailname'][0]
     if 'n6' in opts:
         body = split_let_chains(body, gen, name)
+        body_masked = mask(body)
+    if 'n8' in opts:
+        body = split_enumerate(body, gen, name)
         body_masked = mask(body)
     # R2: a parameter written `_: T` gets a name (Verus wants an identifier); it cannot be referred to, so nothing else changes
     cnt = [0]
